@@ -342,6 +342,19 @@ def check_incon_transfer(ctx, S, T, case, combo, own_mapping):
                 ctx.violation('incon-transfer:default-mappings-differ', 'transfer_from() without explicit mappings gives %r at position %d, with the mappings %r' % (
                     b[k] if k < len(b) else None, k, a[k] if k < len(a) else None), case)
                 return
+        # ... and with only one of the two mappings given (the other is then the library's to find)
+        for which, kw1 in (('block-mapping-only', {'mapping': dict(mp)}), ('column-mapping-only', {'colmapping': dict(cm)})):
+            dst3 = t2i.t2incon()
+            with ctx.guard(case, where='incon-transfer-%s:%s' % (which, combo)) as g:
+                dst3.transfer_from(src, S, T, **kw1)
+            if g.raised is None:
+                ctx.count('incon_transfers_one_mapping_given')
+                if snapshot_incon(dst3) != snapshot_incon(dst):
+                    a, b = snapshot_incon(dst), snapshot_incon(dst3)
+                    k = next((i for i, (x, y) in enumerate(zip(a, b)) if x != y), min(len(a), len(b)))
+                    ctx.violation('incon-transfer:%s-differs:%s' % (which, combo), 'transfer_from() given only that mapping gives %r at position %d, with both mappings %r' % (
+                        b[k] if k < len(b) else None, k, a[k] if k < len(a) else None), case)
+                    return
     names = [b.block for b in dst]
     if names != list(T.block_name_list):
         ctx.violation('incon-transfer:block-list:%s' % combo, 'target incon blocks %r..., geometry announces %r...' % (names[:4], T.block_name_list[:4]), case)
